@@ -7,8 +7,18 @@ CODEC_ASSUME = [
     "out-of-bounds reads are observable only when they cross the guard page next to the slice",
 ]
 
+TECH = "TLC model checking of an explicit TLA+ specification + replay of TLC-generated cases into the Rust library"
+
 def codec(prop, rule, must, quick_cfg="MCCodec_quick.cfg", thorough_cfg="MCCodec_thorough.cfg"):
     return {
+        "technique": TECH,
+        "level_text": "The byte-level semantics of the flat format is an explicit TLA+ specification (spec/FlatTypes, FlatLayout, FlatCodec, FlatValues). "
+                      "TLC checks the format's theorems (RoundTrip, SizeSufficient, Framing, Consistent, Misaligned) in every state of MCCodec, which enumerates, "
+                      "for every catalog type, all valid images of representative trees, every cut, extension, header-field substitution, misalignment and all "
+                      "byte strings over a boundary alphabet; every explored state is printed as a case with the reference answer and replayed into the real "
+                      "validate / from_bytes / from_mut_bytes / size() / accessors inside guard-paged memory. Exhaustive within the stated bounds, not a proof for all inputs.",
+        "level_note": "Trusted: TLC, the transcription of the documented format into spec/FlatCodec.tla, the harness (harness/src/{shape,replay,mem}.rs) and gen.py. "
+                      "Bounds: catalog of spec/Catalog.tla, value/length bounds of the .cfg, host x86-64 little-endian.",
         "quick": [{"type": "tlc-replay", "module": "MCCodec", "cfg": quick_cfg}],
         "thorough": [{"type": "tlc-replay", "module": "MCCodec", "cfg": thorough_cfg}],
         "rule": rule, "must_exercise": must, "assumptions": CODEC_ASSUME, "exhaustive": True,
@@ -28,4 +38,16 @@ PLANS = {
                  ["dec.cut.size", "dec.ext.valid"]),
     "C19": codec("C19", "valid images with exactly one constrained byte (Bool, enum tag, UTF-8 byte) replaced; non-trivial = those for which the reference decoder reports a content error at that field",
                  ["c19.applies"]),
+}
+
+META = {
+    "guard": "cargo feature `verif` of flatty-io (io hooks; not yet committed)",
+    "enable": "the harness depends on /repo by path; io hooks: flatty-io with features = [\"verif\"]",
+    "hook_commits": [],
+    "engines": [
+        {"name": "tlc", "path": "/verif/spec", "serves_properties": sorted(PLANS), "kind_free_text": "explicit TLA+ specification of the flat format, checked with TLC; prints one replayable case per explored state"},
+        {"name": "harness", "path": "/verif/harness", "serves_properties": sorted(PLANS), "kind_free_text": "Rust replayer built against /repo's working tree: replays TLC's cases into the real API inside guard-paged memory and judges each property's projection"},
+    ],
+    "notes": "Model-based verification with an explicit TLA+ specification (DESIGN.md). ./check <ID> quick|thorough; exit 2 = tool error. Known findings: KNOWN_FINDINGS.txt.",
+    "not_yet": {},
 }
